@@ -72,7 +72,8 @@ FIX_COMMITS = ["d6ae502 (passive start-up cancellation: port/listener leak)",
                "4824c94 (listing parsers: non-ASCII digits, years below 1000)",
                "2fbf5a3 (CWD / CDUP are dispatcher barriers)",
                "f646d71 (data socket of a finished transfer outlived its session)",
-               "224efa1 (command lines lose their line end and trailing blanks only)"]
+               "224efa1 (command lines lose their line end and trailing blanks only)",
+               "b3efc7f (reply lines lose their line end and trailing blanks only)"]
 
 # dimensions added after the fourth wave of seeded changes (plug-in APIs as part of the input space)
 EXTRA = {
@@ -424,3 +425,9 @@ _W12 = {
 }
 for _k, _v in _W12.items():
     EXTRA[_k] = EXTRA.get(_k, "") + _v
+
+# wave 13
+EXTRA["C06"] += " Reply lines that end in a character str.rstrip() takes although it is no blank (NBSP, U+3000, U+001F, U+0085)."
+EXTRA["C09"] += " A tree with a sub-directory that cannot be listed (550): recursive list, iteration and download raise or deliver everything."
+EXTRA["C12"] += " Another data connection made while the tail of the last transfer is unsent."
+EXTRA["C16"] += " Idle drop of a session (no socket_timeout) whose finished download still has an unsent tail, with and without further data connections."
